@@ -1,4 +1,5 @@
 import MW.Proto.Schema
+import MW.Proto.Nested
 /-!
 # C20 — Protobuf bindings are wire-compatible and type URLs are canonical
 
@@ -19,10 +20,33 @@ theorem varint_roundtrip' (n : Nat) (rest : Bytes) : decodeVarint (varint n ++ r
 theorem wire_roundtrip' (fs : List WField) (hf : ∀ f ∈ fs, WFField f) :
     decodeFields (encodeFields fs) = some fs := wire_roundtrip fs hf
 
-/-- generic, per message level: values using declared fields round-trip through any descriptor -/
-theorem msg_roundtrip_partial' (m : MD) (fs : List WField) (hw : ∀ f ∈ fs, WFField f)
+/-- generic, one message level: values using declared fields round-trip through any descriptor
+(sub-messages as opaque payloads) -/
+theorem msg_roundtrip_one_level (m : MD) (fs : List WField) (hw : ∀ f ∈ fs, WFField f)
     (hc : ∀ f ∈ fs, conformsField m f = true) : decodeTyped m (encodeTyped m fs) = some fs :=
   msg_roundtrip_partial m fs hw hc
+
+/-- generic, **every nesting depth**: a value tree typed by a descriptor — nested messages typed by the
+descriptors their fields refer to, to any depth and width — is returned unchanged by
+encode-then-decode, against any descriptor environment (in particular the table regenerated from
+packages/initia-proto) -/
+theorem msg_roundtrip (env : Nat → Option MD) (m : MD) (fs : TFields) (hw : fs.WF) (hc : fs.Conforms env m) :
+    decodeNested env fs.size m (encodeNested fs) = some fs := typed_roundtrip env m fs hw hc
+
+/-- non-vacuity: with the first descriptors of the repository's table (message 2 holds a repeated
+message field referring to message 5, which has two string fields) a two-level value conforms -/
+example :
+    let m5 : MD := ⟨5, [⟨1, 1, 0, false, 0, 0⟩, ⟨2, 1, 0, false, 0, 0⟩]⟩
+    let m2 : MD := ⟨2, [⟨1, 9, 2, false, 5, 0⟩]⟩
+    let env : Nat → Option MD := fun r => if r = 5 then some m5 else none
+    let v : TFields := .cons 1 (.msg (.cons 2 (.scalar (.lenDelim [97, 98])) .nil)) .nil
+    v.WF ∧ v.Conforms env m2 := by
+  intro m5 m2 env v
+  refine ⟨?_, ?_⟩
+  · simp [v, TFields.WF, TVal.WF, WFVal]
+  · refine ⟨⟨⟨1, 9, 2, false, 5, 0⟩, by decide, ?_⟩, trivial⟩
+    refine ⟨by decide, m5, by simp [env], ?_⟩
+    exact ⟨⟨⟨2, 1, 0, false, 0, 0⟩, by decide, by simp [TVal.Conforms, isMsg]⟩, trivial⟩
 
 theorem any_roundtrip' (url : String) (m : MD) (fs : List WField) (hw : ∀ f ∈ fs, WFField f)
     (hc : ∀ f ∈ fs, conformsField m f = true) : fromAny url m (toAny url m fs) = some fs :=
